@@ -298,6 +298,7 @@ var documentedMisses = map[string]string{
 	"C07-D": "value-level: a wrong comparison result for particular version strings; no structural rule decides it",
 	"C07-F": "value-level: a wrong comparison result for particular version strings; no structural rule decides it",
 	"C02-F": "the panic is raised inside a third-party decoder on a nil argument its contract does not document",
+	"C02-G": "a hang: a deferred wait for a goroutine that blocks on an unbuffered pipe nobody reads any more (liveness, no structural clause decides it)",
 }
 
 // runMutant: exit 0 fired, 3 missed, 4 skipped, 5 mutant does not compile.
